@@ -32,6 +32,7 @@ pub mod c15;
 pub mod c15_adapt;
 pub mod c15_layout;
 pub mod c16;
+pub mod c16_limited;
 pub mod c17;
 pub mod c17_chk;
 pub mod c17_ref;
